@@ -214,7 +214,19 @@ func (g *gen) clientHist(depth int) {
 					if len(d) > 900 {
 						d = respFor(id, k)
 					}
-					g.emit("CL do %s %s %s %d", showHex(id), showHex(reqFor(id, 20+g.r.intn(100), byte(k))), showHex(d), hn)
+					switch g.r.intn(4) {
+					case 2: // the response arrives after Do has started waiting (an id of its own: nothing scripted applies)
+						fid := g.r.bytes(12)
+						g.emit("CL dolate %s %s %s %d", showHex(fid), showHex(reqFor(fid, 20+g.r.intn(100), byte(k))), showHex(respFor(fid, k)), hn)
+					case 3: // F12 through Do (response handled inside the first Write, which then fails), then an ordinary Do:
+						// nothing of the failed one may be left in the pool of wait handlers
+						fid, fid2 := g.r.bytes(12), g.r.bytes(12)
+						g.emit("CL dofail %s %s %s %d", showHex(fid), showHex(reqFor(fid, 20+g.r.intn(100), byte(k))), showHex(respFor(fid, k)), hn)
+						hn++
+						g.emit("CL dolate %s %s %s %d", showHex(fid2), showHex(reqFor(fid2, 20+g.r.intn(100), byte(k))), showHex(respFor(fid2, k)), hn)
+					default:
+						g.emit("CL do %s %s %s %d", showHex(id), showHex(reqFor(id, 20+g.r.intn(100), byte(k))), showHex(d), hn)
+					}
 					hn++
 					break
 				}
